@@ -51,6 +51,9 @@ CHECKS = {
  'C11': ('Hypothesis-generated models / row counts / methods / numpy seeds vs brute-force joint; rows-independent rounding bound derived along the generation order; Hoeffding bound for sampling; two generations per model object',
          'Generated-input search: validity predicate on the data frame (rows, columns, ranges, no record in a zero-probability cell of any clique or the joint), rounding-mode count error within a rigorous bound that does not grow with rows (checked at two row counts two decades apart), sampling mode within a 1e-12 union bound.',
          'Trusts the brute-force joint and the bound derivation in DESIGN.md (C11); numpy global RNG seeded from the case.'),
+ 'C16': ('Hypothesis-generated clique sets: validity predicate (finite, >=0, sums to total) on arbitrary structures incl. warm second calls; differential against the brute-force joint on constructed junction-tree-structured clique sets (GBP) and tree factor graphs (LBP)',
+         'Generated-input search over structures (loops, nested separators up to four region levels, forests, unary factors), potentials, totals (incl. re-assigned on the object) and sweep counts.',
+         'Exactness clause uses lexicographically ordered distinct cliques with potentials on the maximal cliques (the premise of the statement); FactorGraph.project is only queried on covered attributes.'),
 }
 NOT_YET = 'check not built yet (work in progress in this session); see DESIGN.md for the planned check'
 
